@@ -244,3 +244,24 @@ Definition check_mcase (c : mcase) : option (Z * Z * list Z) :=
 
 Definition mismatches (cs : list mcase) : list (Z * Z * list Z) :=
   flat_map (fun c => match check_mcase c with None => [] | Some m => [m] end) cs.
+
+(* ---------------------------------------------------------------- application mode -------- *)
+(* the minter inside whole-application histories (supply also changes by burns there, so only the
+   minter's own observables are compared): [1; minted; seq; minted-in-period; remainder; carried; last] *)
+Fixpoint check_ablocks (p : mparams) (st : mstate) (blocks : list (Z * list Z)) (i : Z) : option (Z * list Z) :=
+  match blocks with
+  | [] => None
+  | (now, expected) :: t =>
+      match mint p st now with
+      | Ok (a, st', _) =>
+          let got := [1; a; s_seq st'; s_minted st'; s_rem st'; s_rem_prev st'; s_last st'] in
+          if zlist_eqb got expected then check_ablocks p st' t (i + 1) else Some (i, got)
+      | _ => if zlist_eqb [-1] expected then None else Some (i, [-1])
+      end
+  end.
+
+Record acase := { ac_id : Z; ac_params : mparams; ac_state : mstate; ac_blocks : list (Z * list Z) }.
+
+Definition amismatches (cs : list acase) : list (Z * Z * list Z) :=
+  flat_map (fun c => match check_ablocks (ac_params c) (ac_state c) (ac_blocks c) 0 with
+                     | None => [] | Some (i, got) => [(ac_id c, i, got)] end) cs.
